@@ -207,7 +207,7 @@ Proof.
       destruct (o_tmo c) as [d|]; [|repeat vstrip]. match goal with |- context [if ?b then _ else _] => destruct b end; [|repeat vstrip].
       destruct (is_running s); repeat vstrip.
   - (* StreamFinish *) destruct (getop s o) as [c|] eqn:Ec; [|exact O]. apply (Ord_vpres s); [exact O|].
-    destruct (o_status c); try apply vpres_refl; destruct (is_running s); repeat vstrip.
+    destruct (o_status c); try apply vpres_refl; try destruct (fix20 (fx s)); destruct (is_running s); repeat vstrip.
   - (* Advance *) apply (Ord_vpres s); [exact O|]. repeat vstrip.
 Qed.
 
